@@ -84,7 +84,7 @@ def gen(stream, rng, i, cfg):
         elif r < w_int + 0.05 + w_rebind:
             k = rng.randrange(4)
             if k == 0:
-                name = rng.choice(sorted(specs[s]['variables']) + ['v0', 'v9'])
+                name = rng.choice(sorted(specs[s]['variables']) + ['v_0', 'v_9'])
                 val = scen.pick_value(rng, False)
                 specs[s]['variables'][name] = val
                 ops.append(['rebind_var', s, name, val])
@@ -148,11 +148,11 @@ def gen_hostlists(rng, i):
     names = formgen.fn_names()
     slot = {'debug': False, 'variables': {}, 'functions': {}, 'listeners': {}}
     for k in range(3):
-        slot['variables']['hl%d' % k] = rng.choice(HOSTLISTS)
+        slot['variables']['hl_%d' % k] = rng.choice(HOSTLISTS)
     slot['functions']['HL'] = [{'a': 'ret', 'v': rng.choice(HOSTLISTS)}]
     slot['listeners']['callRangeValue'] = [[{'a': 'set', 'v': [rng.choice(HOSTLISTS)]}]]
     slot['listeners']['callCellValue'] = [[{'a': 'set', 'v': [rng.choice(HOSTLISTS)]}]]
-    atoms = ['hl0', 'hl1', 'hl2', 'HL()', 'A1:B2', 'C3']
+    atoms = ['hl_0', 'hl_1', 'hl_2', 'HL()', 'A1:B2', 'C3']
     fill = ['1', '2', '0', '"a"', 'TRUE', '-1', '0.5', '">1"', '{1,2}', '3']
     ops = []
     base = (i * 7) % len(names)
@@ -339,21 +339,21 @@ def nontrivial(sc, stats):
 
 # ---------------------------------------------------------------- H4: live-object census
 CENSUS_CLASSES = [
-    ('value', '1+2*3&"x"', None), ('function_value', 'SUM({1,2,3},v0)+LEN("abc")', None),
+    ('value', '1+2*3&"x"', None), ('function_value', 'SUM({1,2,3},v_0)+LEN("abc")', None),
     ('error_value', '1/0', None), ('error_literal', '#REF!', None), ('error_from_function', 'SUM(#N/A,1)', None),
     ('syntax_error', '1+', None), ('syntax_error_deep', 'SUM(1,(2+3)*', None), ('lexer_error', '1 ~ 2', None),
     ('unknown_name', 'zz_top+1', None), ('unknown_function', 'NOSUCH(1,2)', None), ('type_error_in_builtin', 'ABS("abc")+SQRT(-1)', None),
     ('callback_raise', '1+FR()', None), ('callback_raise_xl', 'SUM(1,FX())', None), ('callback_syntaxerror', 'FS()+1', None),
     ('listener_raise', 'A1+1', 'cell_raise'), ('callback_hostile', 'FH()', None), ('range_value', 'SUM(A1:B2)', 'range'),
-    ('aborted', 'SUM(1,ABORT())', None), ('interrupted_timeout', 'SUM({1,2,3},v0)+LEN("abc")*2', ('timeout', 90)),
-    ('interrupted_abort', 'SUM({1,2,3},v0)+LEN("abc")*2', ('abort', 140)), ('interrupted_in_error', 'SUM(1,FX())+1', ('timeout', 200)),
+    ('aborted', 'SUM(1,ABORT())', None), ('interrupted_timeout', 'SUM({1,2,3},v_0)+LEN("abc")*2', ('timeout', 90)),
+    ('interrupted_abort', 'SUM({1,2,3},v_0)+LEN("abc")*2', ('abort', 140)), ('interrupted_in_error', 'SUM(1,FX())+1', ('timeout', 200)),
     ('distinct_formulas', None, None), ('distinct_failing_formulas', None, None), ('debug_error', '1/0+zz_top', 'debug'),
     ('nested_other', 'FN()+1', None),
 ]
 
 
 def _census_slot(extra):
-    slot = {'debug': extra == 'debug', 'variables': {'v0': V.L(V.I(1), V.I(2))},
+    slot = {'debug': extra == 'debug', 'variables': {'v_0': V.L(V.I(1), V.I(2))},
             'functions': {'FR': [{'a': 'raise', 'e': 'ValueError', 'm': 'boom'}],
                           'FX': [{'a': 'raise', 'e': 'XL:#N/A'}], 'FS': [{'a': 'raise', 'e': 'SyntaxError', 'm': 'x'}],
                           'FH': [{'a': 'ret', 'v': {'t': 'xlerr', 'v': '#FOO!'}}], 'ABORT': [{'a': 'abort'}],
@@ -396,7 +396,7 @@ def census_task(arg):
                 if name == 'distinct_formulas':
                     f = '%d+LEN("s%d")' % (counter[0] + 1000, counter[0])
                 elif name == 'distinct_failing_formulas':
-                    f = '%d/0+u%dx' % (counter[0] + 1000, counter[0])
+                    f = '%d/0+u_%d_x' % (counter[0] + 1000, counter[0])
                 intr = None
                 if isinstance(extra, tuple):
                     intr = (extra[1], SimTimeout('t') if extra[0] == 'timeout' else SimAbort('a'))
